@@ -724,12 +724,77 @@ def check_schedule(ctx):
            construct='dependency relation of the schedule')
 
 
+def merged_intersection(ctx, fi, value):
+    """{(i, j): self.H(i, j) for i, j in self.mp_order()} with H a merge sweep over two tuples:
+           a = b = 0; while a < len(c1) and b < len(c2):  equal -> collect, advance both;  KEY(c1[a]) < KEY(c2[b]) -> advance a;  else advance b
+    It collects exactly the common elements when both tuples are strictly increasing under KEY.  The maximal cliques are kept in the DOMAIN's
+    attribute order (`domain.canonical`), so KEY must be the position in the domain (`domain.attrs.index`); comparing the names themselves
+    assumes that order is alphabetical and skips shared attributes when it is not.  -> (ok, why, node) or None"""
+    from ..engines.blockeval import T
+    if not (isinstance(value, ast.DictComp) and len(value.generators) == 1 and T(value.generators[0].iter) == 'self.mp_order()'
+            and isinstance(value.value, ast.Call) and U(value.value.func).startswith('self.') and len(value.value.args) == 2):
+        return None
+    tg = [T(x) for x in value.generators[0].target.elts] if isinstance(value.generators[0].target, ast.Tuple) else []
+    if [T(a) for a in value.value.args] != tg or T(value.key) != '(%s,%s)' % tuple(tg):
+        return None
+    h = fi.module.funcs.get('%s.%s' % (fi.cls.name, U(value.value.func)[5:]))
+    if h is None or len(h.params) != 3:
+        return None
+    c1, c2 = h.params[1], h.params[2]
+    loops = [n for n in ast.walk(h.node) if isinstance(n, ast.While)]
+    if len(loops) != 1:
+        return None
+    lp = loops[0]
+    m = re.fullmatch(r'(\w+)<len\(%s\)and(\w+)<len\(%s\)' % (c1, c2), T(lp.test))
+    if not m or len(lp.body) != 1 or not isinstance(lp.body[0], ast.If):
+        return None
+    a, b = m.group(1), m.group(2)
+    top = lp.body[0]
+    if T(top.test) not in ('%s[%s]==%s[%s]' % (c1, a, c2, b), '%s[%s]==%s[%s]' % (c2, b, c1, a)) or len(top.orelse) != 1 or not isinstance(top.orelse[0], ast.If):
+        return None
+    eqb = [T(x) for x in top.body]
+    coll = [x for x in eqb if re.fullmatch(r'\w+\.append\(%s\[%s\]\)' % (c1, a), x) or re.fullmatch(r'\w+\.append\(%s\[%s\]\)' % (c2, b), x)]
+    both = {'%s+=1' % a, '%s+=1' % b} <= set(eqb) or any(x in ('%s,%s=(%s+1,%s+1)' % (a, b, a, b), '(%s,%s)=(%s+1,%s+1)' % (a, b, a, b),
+                                                                   '%s,%s=%s+1,%s+1' % (a, b, a, b)) for x in eqb)
+    if len(coll) != 1 or not both:
+        return None
+    acc = coll[0].split('.')[0]
+    inner = top.orelse[0]
+    if [T(x) for x in inner.body] != ['%s+=1' % a] or [T(x) for x in inner.orelse] != ['%s+=1' % b]:
+        return None
+    rets = [r for r in ast.walk(h.node) if isinstance(r, ast.Return) and r.value is not None]
+    if len(rets) != 1 or T(rets[0].value) not in ('tuple(%s)' % acc, acc):
+        return None
+    t = T(inner.test)
+    aliases = {x.targets[0].id: T(x.value) for x in ast.walk(h.node) if isinstance(x, ast.Assign) and len(x.targets) == 1 and isinstance(x.targets[0], ast.Name)}
+    mk = re.fullmatch(r'(.+)\(%s\[%s\]\)<\1\(%s\[%s\]\)' % (c1, a, c2, b), t)
+    if mk:
+        key = aliases.get(mk.group(1), mk.group(1))
+        if key in ('self.domain.attrs.index',):
+            return True, 'positions in the domain decide which side advances - the order the maximal cliques are kept in (domain.canonical)', inner
+        raise AnalysisError('%s: merge sweep ordered by `%s`, which is not known to be the order the cliques are kept in' % (h.qualname, key))
+    if t == '%s[%s]<%s[%s]' % (c1, a, c2, b):
+        return False, ('the attribute NAMES decide which side advances, but the cliques are kept in the domain\'s attribute order: on a domain that is '
+                       'not listed alphabetically a shared attribute is stepped over and the separator loses it'), inner
+    return None
+
+
 def check_separators(ctx):
     sep = ctx.repo.nfunc(JT, 'JunctionTree.separator_axes')
     rets = [r for r in walk_shallow(sep.node) if isinstance(r, ast.Return)]
     from ..srcmodel import alpha_text, alpha_of
     ok = bool(rets) and alpha_text(rets[-1].value) == alpha_of('{(i, j): tuple(set(i) & set(j)) for i, j in self.mp_order()}')
-    ctx.ob('separators', sep, rets[-1] if rets else sep.node, ok, 'the separator of message (i,j) is the intersection of cliques i and j')
+    if not ok:
+        src = ctx.repo.func(JT, 'JunctionTree.separator_axes')
+        sr = [r for r in walk_shallow(src.node) if isinstance(r, ast.Return)]
+        ms = merged_intersection(ctx, src, sr[-1].value) if sr else None
+        if ms is not None:
+            okm, whym, where_ = ms
+            ctx.ob('separators', sep, where_, okm, 'the separator of message (i,j) is the intersection of cliques i and j, here by a merge sweep over the two '
+                   'clique tuples: ' + whym, construct='merge sweep of two cliques')
+            ok = None
+    if ok is not None:
+        ctx.ob('separators', sep, rets[-1] if rets else sep.node, ok, 'the separator of message (i,j) is the intersection of cliques i and j')
     mc = ctx.repo.nfunc(JT, 'JunctionTree.maximal_cliques')
     nb = ctx.repo.nfunc(JT, 'JunctionTree.neighbors')
     r1 = [r for r in walk_shallow(mc.node) if isinstance(r, ast.Return)]
